@@ -58,7 +58,7 @@ Definition init_of (sn : snapshot) : cstate :=
   mkC (fun c f => match nth_error sn c with
                   | Some row => match nth_error row f with Some (o, _) => o | None => None end
                   | None => None end)
-      (fun _ _ => None) (fun _ => false).
+      (fun _ _ => None) (fun _ _ => false).
 
 Fixpoint check_steps (s : cstate) (ops : list cop) (sns : list snapshot) : bool :=
   match ops, sns with
